@@ -26,6 +26,8 @@ type Val struct {
 	ElemT   types.Type
 	ElemSrt string
 	KLen int        // statically known slice length (0 = unknown)
+	absName string  // quantifier variable re-expressed as absolute address
+	absBase string
 }
 
 type Ptr struct {
@@ -115,6 +117,8 @@ type VC struct {
 	u       *Universe
 	eng     *Engine
 	fnName  string
+	globals []string // declarations and axioms visible to every obligation
+	alloc0  string
 	facts   []string
 	obls    []*Obligation
 	nfresh  int
@@ -128,6 +132,7 @@ type VC struct {
 	pureSeen map[string]bool
 	implSeen map[string]bool
 	verifyingBody bool
+	absQuant bool // quantifiers over slice indices are rewritten to absolute addresses
 }
 
 func (vc *VC) fresh(prefix, sort string) string {
@@ -191,10 +196,14 @@ func (vc *VC) unsupported(st *State, what string, pos token.Position) {
 func (o *Obligation) query(withModel bool) string {
 	vc := o.vc
 	var b strings.Builder
-	b.WriteString("(set-logic ALL)\n")
+	b.WriteString("; " + o.Name + "\n(set-logic ALL)\n")
 	b.WriteString(vc.u.prelude())
 	for _, a := range vc.u.axioms {
 		b.WriteString("(assert " + a.smt + ")\n")
+	}
+	for _, f := range vc.globals {
+		b.WriteString(f)
+		b.WriteByte('\n')
 	}
 	for _, f := range vc.facts[:o.Prefix] {
 		b.WriteString(f)
@@ -219,22 +228,48 @@ func (vc *VC) heap(st *State, t types.Type) (key, term string) {
 	// first use: the entry heap constant (shared by all states of the run)
 	n := "H0_" + key
 	vc.declareGlobal(n, "(Array Int "+vc.u.sortOf(vc.u.heapKeys[key])+")")
+	if vc.alloc0 != "" {
+		if ax := vc.refsBelowAxiom(n, vc.u.heapKeys[key], vc.alloc0); ax != "" {
+			vc.globals = appendUnique(vc.globals, "(assert "+ax+")")
+		}
+	}
 	st.heaps[key] = n
 	return key, n
 }
 
 func (vc *VC) declareGlobal(name, sort string) {
 	d := fmt.Sprintf("(declare-const %s %s)", name, sort)
-	for _, f := range vc.facts {
+	for _, f := range vc.globals {
 		if f == d {
 			return
 		}
 	}
-	// globals must be visible to every obligation: put them first
-	vc.facts = append([]string{d}, vc.facts...)
-	for _, o := range vc.obls {
-		o.Prefix++
+	vc.globals = append(vc.globals, d)
+}
+
+// refsBelowAxiom: every reference stored in heap array h is below alloc.
+func (vc *VC) refsBelowAxiom(h string, t types.Type, alloc string) string {
+	rs := vc.refTerms("(select "+h+" a)", t, 0)
+	if len(rs) == 0 {
+		return ""
 	}
+	var cs []string
+	for _, r := range rs {
+		cs = append(cs, "(< "+r+" "+alloc+")")
+	}
+	return fmt.Sprintf("(forall ((a Int)) (! %s :pattern ((select %s a))))", and(cs...), h)
+}
+
+func (vc *VC) mapRefsBelowAxiom(mv string, mt *types.Map, alloc string) string {
+	rs := vc.refTerms("(select (select "+mv+" m) k)", mt.Elem(), 0)
+	if len(rs) == 0 {
+		return ""
+	}
+	var cs []string
+	for _, r := range rs {
+		cs = append(cs, "(< "+r+" "+alloc+")")
+	}
+	return fmt.Sprintf("(forall ((m Int) (k %s)) (! %s :pattern ((select (select %s m) k))))", vc.u.sortOf(mt.Key()), and(cs...), mv)
 }
 
 func (vc *VC) mapArrays(st *State, t *types.Map) (key, dom, val, card string) {
@@ -247,6 +282,11 @@ func (vc *VC) mapArrays(st *State, t *types.Map) (key, dom, val, card string) {
 	vc.declareGlobal("MD0_"+key, "(Array Int (Array "+ks+" Bool))")
 	vc.declareGlobal("MV0_"+key, "(Array Int (Array "+ks+" "+vs+"))")
 	vc.declareGlobal("MC0_"+key, "(Array Int Int)")
+	if vc.alloc0 != "" {
+		if ax := vc.mapRefsBelowAxiom("MV0_"+key, c, vc.alloc0); ax != "" {
+			vc.globals = appendUnique(vc.globals, "(assert "+ax+")")
+		}
+	}
 	st.mdom[key], st.mval[key], st.mcard[key] = "MD0_"+key, "MV0_"+key, "MC0_"+key
 	return key, st.mdom[key], st.mval[key], st.mcard[key]
 }
@@ -425,4 +465,13 @@ func (vc *VC) mergeStates(ins []*State, label string) *State {
 	out.alloc = vc.mergeTerm(conds, allocs, "alloc", "Int")
 	out.rh = vc.mergeTerm(conds, rhs, "RH", "Int")
 	return out
+}
+
+func appendUnique(xs []string, x string) []string {
+	for _, y := range xs {
+		if y == x {
+			return xs
+		}
+	}
+	return append(xs, x)
 }
